@@ -410,3 +410,211 @@ class CheckGrid(Contract):
                 for i in range(nd):
                     lo, hi = self.lims[i]
                     cx.oblige(f"post.deltas_default.{i}", T.eq(d.get((i,)), T.mul(T.sub(hi.t, lo.t), Fraction(1, 400))), "post", "default cell size = 0.25 % of the range")
+
+
+# =============================================================================== boundary extraction (C15)
+import itertools  # noqa: E402
+
+
+def _offsets(nd):
+    return list(itertools.product((-1, 0, 1), repeat=nd))
+
+
+def _inside(shape, c):
+    return T.land(*[T.land(T.ge(ci, 0), T.lt(ci, e)) for ci, e in zip(c, shape)])
+
+
+@contract(HD + "._compute", ["C15"], [dict(nd=nd, reach="reached", deltas="list", modes=m) for nd in (2, 3) for m in (1, 2)], name="hdc.compute.boundary")
+class HdcComputeBoundary(HdcComputeRegion):
+    """_compute from the region to the coordinates, against the contracts of scipy.ndimage (assumed):
+    binary_erosion(R, S)[c] <=> every S-neighbour of c lies in the grid and in R;  label(B, S) numbers the connected
+    components 1..n (label >= 1 <=> B != 0).  Proved for 2-D / 3-D grids of symbolic size with one or two regions:
+    every returned point is the centre min + k*delta of a BOUNDARY cell (in the region, with one of its 3^n - 1
+    neighbours outside the region or the grid) of its region, no cell twice, every boundary cell of the region present;
+    one region: one (N, n_dim) array (2-D: in the order chosen by the point sorter, a permutation); two regions: one
+    coordinate set per region."""
+
+    def case_label(self, case):
+        return f"n_dim={case['nd']},regions={case['modes']}"
+
+    def setup(self, itp, case):
+        super().setup(itp, case)
+        me = self
+        nd = case["nd"]
+        me.nz = []
+
+        def csb(itp_, args, kwargs):
+            arr = args[-2]
+            cx = itp_.cx
+            inreg = T.uf("in_region", *(["int"] * nd + ["bool"]))
+            me.inreg = inreg
+            me.prob_m = cx.sym("prob_m", "real")
+            me.grid_shape = arr.shape
+            return (SArr.fresh(arr.shape, lambda idx: T.ite(inreg(*[T.zi(i) for i in idx]), Fraction(1), Fraction(0)), "real", name="HDR"), Sym(me.prob_m))
+        itp.summaries[HD + ".cumsum_biggest_until"] = csb
+
+        def erosion(itp_, a, k):
+            src = a[0]
+            structure = k.get("structure", a[1] if len(a) > 1 else None)
+            itp_.cx.trusted.add("scipy.ndimage.binary_erosion(R, structure=S)[c] <=> for every offset o with S[o+1]: c+o lies in the grid and R[c+o] != 0 (border_value 0)")
+            if not isinstance(src, SArr) or src.ndim != nd or not isinstance(structure, SArr) or tuple(structure.shape) != (3,) * nd:
+                raise Unsupported_("binary_erosion: unexpected arguments")
+            g = src.getter()
+            sg = structure.getter()
+
+            def el(idx):
+                conj = []
+                for o in _offsets(nd):
+                    s = sg(tuple(oi + 1 for oi in o))
+                    s = s if T.sort_of(s) == "bool" else T.ne(s, 0)
+                    nb = tuple(T.add(i, oi) for i, oi in zip(idx, o))
+                    conj.append(T.implies(s, T.land(_inside(src.shape, nb), T.ne(g(nb), 0))))
+                return T.land(*conj)
+            return SArr.fresh(src.shape, el, "bool", name="eroded")
+        itp.lib.table["scipy.ndimage.binary_erosion"] = Builtin("scipy.ndimage.binary_erosion", erosion)
+
+        def label(itp_, a, k):
+            cx = itp_.cx
+            src = a[0]
+            cx.trusted.add("scipy.ndimage.label(B, structure=S) = (L, n): 0 <= L <= n, L[c] >= 1 <=> B[c] != 0, the cells of one label are one S-connected component")
+            L = T.uf("region_label", *(["int"] * nd + ["int"]))
+            me.L = L
+            me.label_structure = k.get("structure", a[1] if len(a) > 1 else None)
+            me.hdc = src
+            g = src.getter()
+            n = case["modes"]
+
+            def el(idx):
+                t = L(*[T.zi(i) for i in idx])
+                if not any(T.has_bound_var(i) for i in idx):
+                    cx.fact(z3.And(t >= 0, t <= n, (t >= 1) == T.zb(T.ne(g(idx), 0))), "ndimage.label: 0 <= L <= n, L >= 1 <=> input non-zero (instance)")
+                return t
+            return (SArr.fresh(src.shape, el, "int", name="labeled"), n)
+        itp.lib.table["scipy.ndimage.label"] = Builtin("scipy.ndimage.label", label)
+
+        def gen_structure(itp_, a, k):
+            rank = a[0] if a else k.get("rank")
+            conn = a[1] if len(a) > 1 else k.get("connectivity")
+            if not isinstance(rank, int) or not isinstance(conn, int):
+                raise Unsupported_("generate_binary_structure with symbolic rank / connectivity")
+            itp_.cx.trusted.add("scipy.ndimage.generate_binary_structure(rank, c)[o] <=> sum_d |o_d - 1| <= c")
+            return SArr.fresh((3,) * rank, lambda idx: T.le(sum((T.ite(T.eq(i, 1), 0, 1) for i in idx), 0), max(conn, 1)), "bool", name="structure")
+        itp.lib.table["scipy.ndimage.generate_binary_structure"] = Builtin("scipy.ndimage.generate_binary_structure", gen_structure)
+
+        real_nonzero = itp.lib.table["numpy.nonzero"].fn
+
+        def nonzero(itp_, a, k):
+            outs = real_nonzero(itp_, a, k)
+            me.nz.append(outs)
+            return outs
+        itp.lib.table["numpy.nonzero"] = Builtin("numpy.nonzero", nonzero)
+
+        def sorter(itp_, args, kwargs):
+            cx = itp_.cx
+            x, y = args[0], args[1]
+            cx.trusted.add("sort_points_to_form_continuous_line(x, y) returns x[p], y[p] for a permutation p (its own property: bounded check in vf/rt/C15.py)")
+            K = x.shape[0]
+            p = cx.new_fn("sort_perm", "int", "int")
+            q = cx.new_fn("sort_perm_inv", "int", "int")
+            kk = z3.Int("sp_k")
+            cx.fact(z3.ForAll([kk], z3.Implies(z3.And(kk >= 0, kk < T.zi(K)), z3.And(p(kk) >= 0, p(kk) < T.zi(K), q(p(kk)) == kk)), patterns=[p(kk)]), "sorter: permutation")
+            cx.fact(z3.ForAll([kk], z3.Implies(z3.And(kk >= 0, kk < T.zi(K)), z3.And(q(kk) >= 0, q(kk) < T.zi(K), p(q(kk)) == kk)), patterns=[q(kk)]), "sorter: permutation")
+            me.perm, me.perm_inv = p, q
+            xg, yg = x.getter(), y.getter()
+            return (SArr.fresh((K,), lambda idx: xg((p(T.zi(idx[0])),)), "real"), SArr.fresh((K,), lambda idx: yg((p(T.zi(idx[0])),)), "real"))
+        itp.summaries["virocon.utils.sort_points_to_form_continuous_line"] = sorter
+        itp.summaries["virocon.contours.sort_points_to_form_continuous_line"] = sorter
+
+    def boundary(self, c):
+        """spec: cell c is in the region and one of its 3^n - 1 neighbours is outside the region or outside the grid"""
+        nd = len(c)
+        inr = self.inreg
+        out = []
+        for o in _offsets(nd):
+            if all(oi == 0 for oi in o):
+                continue
+            nb = tuple(T.add(ci, oi) for ci, oi in zip(c, o))
+            out.append(T.lor(T.lnot(_inside(self.grid_shape, nb)), T.lnot(inr(*[T.zi(i) for i in nb]))))
+        return T.land(inr(*[T.zi(i) for i in c]), T.lor(*out))
+
+    def post(self, itp, case, inp, out):
+        cx = itp.cx
+        nd, modes = case["nd"], case["modes"]
+        if out.outcome != "return":
+            cx.oblige("post.returns", False, "post", f"{out.outcome}: {out.exc} {out.msg}")
+            return
+        cx.oblige("post.one_nonzero_per_region", len(self.nz) == modes and all(len(o) == nd for o in self.nz), "post", "the cells of every region are enumerated once")
+        if len(self.nz) != modes:
+            return
+        coords = self.obj.fields.get("coordinates")
+        st = getattr(self, "label_structure", None)
+        ok_struct = isinstance(st, SArr) and tuple(st.shape) == (3,) * nd
+        cx.oblige("post.regions_by_full_structure.shape", ok_struct, "post", "regions are the components under the full 3^n neighbourhood (the one the boundary is defined with)")
+        if ok_struct:
+            sidx = fresh_index(cx, st.shape)
+            t = st.get(sidx)
+            cx.oblige("post.regions_by_full_structure.ones", t if T.sort_of(t) == "bool" else T.eq(t, 1), "post")
+        for r in range(modes):
+            outs = self.nz[r]
+            K = outs[0].shape[0]
+            tag = f"region{r + 1}"
+            # ---- the value stored for (region r, point k, axis d)
+            if modes == 1:
+                ok = isinstance(coords, SArr) and coords.ndim == 2
+                cx.oblige("post.single_region.one_array", ok, "post", "a single region is returned as one (N, n_dim) array")
+                if not ok:
+                    return
+                cx.oblige("post.single_region.shape", T.land(T.eq(coords.shape[0], K), T.eq(coords.shape[1], nd)), "post", "one row per boundary cell")
+                value = lambda k, d: coords.get((k, d))
+            else:
+                ok = isinstance(coords, list) and len(coords) == modes and isinstance(coords[r], list) and len(coords[r]) == nd and all(isinstance(a, SArr) and a.ndim == 1 for a in coords[r])
+                cx.oblige(f"post.{tag}.own_coordinate_set", ok, "post", "several regions: one coordinate set (one array per variable) per region")
+                if not ok:
+                    return
+                for d in range(nd):
+                    cx.oblige(f"post.{tag}.length.{d}", T.eq(coords[r][d].shape[0], K), "post")
+                value = lambda k, d, r=r: coords[r][d].get((k,))
+            sorted_2d = modes == 1 and nd == 2
+            k = cx.fresh("k_pt", "int")
+            cx.assume(T.land(T.ge(k, 0), T.lt(k, K)))
+            src_k = self.perm(k) if sorted_2d else k    # which enumerated cell ends up in row k
+            cell = [outs[d].get((src_k,)) for d in range(nd)]
+            for d in range(nd):
+                cx.oblige(f"post.{tag}.point_is_cell_centre.{d}", T.eq(value(k, d), T.add(self.mins[d].t, T.mul(cell[d], self.deltas[d].t))), "post",
+                          "coordinate d of a returned point is the centre min_d + k_d * delta_d of its cell (anisotropic deltas: each axis its own)")
+            cx.oblige(f"post.{tag}.cell_in_grid", _inside(self.grid_shape, cell), "post")
+            lc = self.L(*[T.zi(i) for i in cell])
+            cx.fact(z3.And(lc >= 0, lc <= modes, (lc >= 1) == T.zb(T.ne(self.hdc.getter()(tuple(cell)), 0))), "ndimage.label (instance at the returned cell)")
+            cx.oblige(f"post.{tag}.cell_is_boundary", self.boundary(cell), "post", "in the region, with a neighbour (of the 3^n - 1) outside the region or the grid")
+            cx.oblige(f"post.{tag}.cell_of_this_region", T.eq(self.L(*[T.zi(i) for i in cell]), r + 1), "post")
+            # ---- no cell twice
+            k2 = cx.fresh("k_pt2", "int")
+            src_k2 = self.perm(k2) if sorted_2d else k2
+            cell2 = [outs[d].get((src_k2,)) for d in range(nd)]
+            cx.oblige(f"post.{tag}.each_cell_once", T.implies(T.land(T.ge(k2, 0), T.lt(k2, K), T.ne(k, k2)), T.lor(*[T.ne(a, b) for a, b in zip(cell, cell2)])), "post",
+                      "two different returned points belong to two different cells")
+            # ---- every boundary cell of the region is present
+            c = [cx.fresh(f"c{d}", "int") for d in range(nd)]
+            ms = outs[0].masksel
+            uid_rv = [T.uf(n_, *(["int"] * nd + ["int"])) for n_ in [f"rav_{cx.ghost['boxes']['|'.join(str(T.z(e).sexpr()) for e in self.grid_shape)]}"]][0]
+            flat = uid_rv(*[T.zi(i) for i in c])
+            wit = ms.rank(flat)
+            if sorted_2d:
+                wit = self.perm_inv(wit)
+            hyp = T.land(_inside(self.grid_shape, c), self.boundary(c), T.eq(self.L(*[T.zi(i) for i in c]), r + 1))
+            # instance of the labelling contract at the arbitrary cell c
+            self_l = self.hdc.getter()(tuple(c))
+            cx.fact(z3.And(self.L(*c) >= 0, self.L(*c) <= modes, (self.L(*c) >= 1) == T.zb(T.ne(self_l, 0))), "ndimage.label (instance at the arbitrary cell)")
+            goal = T.land(T.ge(wit, 0), T.lt(wit, K), *[T.eq(value(wit, d), T.add(self.mins[d].t, T.mul(c[d], self.deltas[d].t))) for d in range(nd)])
+            cx.oblige(f"post.{tag}.every_boundary_cell_present", T.implies(hyp, goal), "post",
+                      "every boundary cell of the region appears among the returned points (witness: its rank in the enumeration)")
+        # every boundary cell carries a label in 1..modes (so it is in one of the sets)
+        c = [cx.fresh(f"cb{d}", "int") for d in range(nd)]
+        self_l = self.hdc.getter()(tuple(c))
+        cx.fact(z3.And(self.L(*c) >= 0, self.L(*c) <= modes, (self.L(*c) >= 1) == T.zb(T.ne(self_l, 0))), "ndimage.label (instance at the arbitrary cell)")
+        cx.oblige("post.boundary_cells_are_labelled", T.implies(T.land(_inside(self.grid_shape, c), self.boundary(c)), T.land(T.ge(self.L(*c), 1), T.le(self.L(*c), modes))), "post",
+                  "a boundary cell belongs to one of the regions")
+        cx.oblige("frame.model", not self.model.writes, "frame")
+
+
+from vf.engine.vc import Unsupported as Unsupported_  # noqa: E402
